@@ -105,48 +105,8 @@ Definition run_any (c : DC + SC) : bool := match c with inl a => run_detail a | 
 """
 
 
-_EFF: dict = {}
-
-
-def single_threshold_prob(w) -> float:
-    """The probability the implementation's own single-threshold conversion computes for weight w."""
-    from splink.internals.misc import threshold_args_to_match_prob
-    return threshold_args_to_match_prob(None, float(w))
-
-
-def effective_threshold(backend: str, p: float) -> Fraction:
-    """Exact rational t such that the engine's `match_probability >= <repr(p)>` on a DOUBLE column is
-    `x >= t` for every double x near p.  DuckDB reads the literal as DECIMAL and its comparison with a
-    DOUBLE can sit one ulp off p (either way); SQLite parses it as the double p.  Determined by probing
-    the 7 doubles around p on an independent connection; None if the answers are not monotone."""
-    key = (backend, repr(p))
-    if key in _EFF:
-        return _EFF[key]
-    import math
-    ds = [p]
-    for _ in range(3):
-        ds.insert(0, math.nextafter(ds[0], -math.inf))
-        ds.append(math.nextafter(ds[-1], math.inf))
-    lit = f"{p}"
-    if backend == "duckdb":
-        import duckdb
-        con = duckdb.connect()
-        con.execute("create table t(i integer, x double)")
-        con.executemany("insert into t values (?, ?)", [[i, x] for i, x in enumerate(ds)])
-        ans = [bool(r[0]) for r in con.execute(f"select x >= {lit} from t order by i").fetchall()]
-        con.close()
-    else:
-        import sqlite3
-        con = sqlite3.connect(":memory:")
-        con.execute("create table t(i integer, x real)")
-        con.executemany("insert into t values (?, ?)", list(enumerate(ds)))
-        ans = [bool(r[0]) for r in con.execute(f"select x >= {lit} from t order by i").fetchall()]
-        con.close()
-    res = None
-    if ans == sorted(ans) and ans[0] is False and ans[-1] is True:
-        res = Fraction(ds[ans.index(True)])
-    _EFF[key] = res
-    return res
+single_threshold_prob = X5.single_threshold_prob
+effective_threshold = X5.effective_threshold
 
 
 def thr_values(case):
